@@ -201,3 +201,26 @@ def assignments_to(func, name):
                 and len(n.kids) >= 3 and member_path(n.kids[1]) == name:
             out.append(n.kids[2])
     return out
+
+
+def is_noop_stmt(n):
+    """a statement without effect: `;`, `(void)0;`, `static_cast<void>(x);` of a literal / name"""
+    if n is None or n.kind == 'NullStmt':
+        return True
+    if n.kind in ('CStyleCastExpr', 'CXXStaticCastExpr', 'CXXFunctionalCastExpr') and 'void' in (n.type or ''):
+        inner = n.kids[-1] if n.kids else None
+        return inner is None or inner.kind in ('IntegerLiteral', 'DeclRefExpr', 'CXXBoolLiteralExpr')
+    return False
+
+
+def effective_stmts(stmt):
+    """the statements of a branch with compound nesting flattened and no-ops dropped"""
+    if stmt is None:
+        return []
+    if stmt.kind == 'CompoundStmt':
+        out = []
+        for k in stmt.kids:
+            if k is not None:
+                out += effective_stmts(k) if k.kind == 'CompoundStmt' else ([] if is_noop_stmt(k) else [k])
+        return out
+    return [] if is_noop_stmt(stmt) else [stmt]
